@@ -582,14 +582,34 @@ theorem fates_of_loop (one : Int) (hs : List HeadInfo) (cs : List Nat) (l : Nat)
   rw [resolveFates_eq, filter_resolveGroups one h.loop g (groupsOf hs) cs (groupsOf_keys_nodup hs) (groupsOf_loopsOk hs) hg, hge]
   rfl
 
-theorem fateOf_cowin {w h : HeadInfo} : fateOf w h = Fate.cowin ↔ h.ev = w.ev := by
+theorem fateOf_cowin {w h : HeadInfo} : fateOf w h = Fate.cowin ↔ sameEv w h = true := by
   unfold fateOf
-  by_cases e : h.ev = w.ev
-  · simp [e]
-  · simp only [e, if_false]
-    constructor
-    · intro h'; split at h' <;> simp at h'
-    · intro h'; exact h'.elim
+  cases e : sameEv w h with
+  | true => simp
+  | false =>
+    simp only [Bool.false_eq_true, if_false, iff_false]
+    split <;> simp
+
+theorem sameEv_ev {w h : HeadInfo} (e : sameEv w h = true) : h.ev = w.ev := by
+  unfold sameEv at e
+  simp only [Bool.and_eq_true, beq_iff_eq] at e
+  exact e.1
+
+/-- identical Start events of two action instances agree (the flows will share the started action) -/
+theorem sameEv_of_start {w h : HeadInfo} (e : h.ev = w.ev) (hs : w.isStart = true) : sameEv w h = true := by
+  unfold sameEv
+  cases w.act <;> cases h.act <;> simp [e, hs]
+
+/-- events that are not both bound to an action instance agree when name and arguments agree -/
+theorem sameEv_of_noact {w h : HeadInfo} (e : h.ev = w.ev) (hn : w.act = none ∨ h.act = none) : sameEv w h = true := by
+  unfold sameEv
+  rcases hn with hn | hn <;> rw [hn] <;> cases w.act <;> cases h.act <;> simp [e]
+
+/-- events of one and the same action instance agree when name and arguments agree -/
+theorem sameEv_of_same_action {w h : HeadInfo} (e : h.ev = w.ev) (ha : h.act = w.act) : sameEv w h = true := by
+  unfold sameEv
+  rw [ha]
+  cases w.act <;> simp [e]
 
 /-- every entry of a group's result is the picked head or another head classified against it -/
 theorem resolveGroup_cases (one : Int) (g : List HeadInfo) (c : Nat) (hg : g ≠ []) :
@@ -965,5 +985,64 @@ theorem groups_scope_count (one : Int) (w : HeadInfo) (b : Nat) (hb : w.act = so
         rw [e2] at this ⊢
         rw [applyFates_picked_head cw' none w2 r _]
         exact this
+
+/-! ### exact order of matcher scores, strict lexicographic order -/
+
+theorem pow_cross_lt {num den : Nat} (h0 : 0 < num) (h1 : num < den) {ka kb : Nat} (hk : ka < kb) :
+    num ^ kb * den ^ ka < num ^ ka * den ^ kb := by
+  obtain ⟨e, he, rfl⟩ : ∃ e, e ≠ 0 ∧ kb = ka + e := ⟨kb - ka, by omega, by omega⟩
+  have hd : num ^ e < den ^ e := Nat.pow_lt_pow_left h1 he
+  have hpos : 0 < num ^ ka * den ^ ka := Nat.mul_pos (Nat.pow_pos h0) (Nat.pow_pos (by omega))
+  have := (Nat.mul_lt_mul_left hpos).2 hd
+  calc num ^ (ka + e) * den ^ ka = num ^ ka * den ^ ka * num ^ e := by
+        rw [Nat.pow_add]; ac_rfl
+    _ < num ^ ka * den ^ ka * den ^ e := this
+    _ = num ^ ka * den ^ (ka + e) := by rw [Nat.pow_add den]; ac_rfl
+
+/-- same (positive) priority, fewer unmentioned parameters ⇒ strictly larger score -/
+theorem mlt_of_more_unmentioned {num den : Nat} (h0 : 0 < num) (h1 : num < den) (a b : MScore)
+    (hp : a.prio = b.prio) (hpos : 0 < a.pnum) (hk : a.k < b.k) : mlt num den b a := by
+  have hpn : b.pnum = a.pnum := by simp [MScore.pnum, hp]
+  have hpe : b.pexp = a.pexp := by simp [MScore.pexp, hp]
+  unfold mlt
+  rw [hpn, hpe]
+  apply Int.mul_lt_mul_of_pos_left _ hpos
+  have h2 : 0 < 2 ^ a.pexp := Nat.pow_pos (by omega)
+  have := (Nat.mul_lt_mul_right h2).2 (pow_cross_lt h0 h1 hk)
+  exact Int.ofNat_lt.2 this
+
+theorem mlt_irrefl (num den : Nat) (a : MScore) : ¬ mlt num den a a := by
+  unfold mlt; exact Int.lt_irrefl _
+
+theorem lexLe_prefix_lt (pre : List Int) {x y : Int} (h : y < x) (s t : List Int) :
+    lexLe (pre ++ x :: s) (pre ++ y :: t) = false := by
+  induction pre with
+  | nil =>
+    have h1 : ¬ x < y := by omega
+    simp [lexLe, h1, h]
+  | cons a pre ih =>
+    simp only [cons_append, lexLe, Int.lt_irrefl, if_false]
+    exact ih
+
+theorem padTo_split (one : Int) (n : Nat) (pre : List Int) (x : Int) (s : List Int) :
+    padTo one n (pre ++ x :: s) = pre ++ x :: (s ++ replicate (n - (pre ++ x :: s).length) one) := by
+  simp [padTo]
+
+theorem mem_maxLen_le {g : List HeadInfo} {h : HeadInfo} (hh : h ∈ g) : h.scores.length ≤ maxLen g := by
+  induction g with
+  | nil => simp at hh
+  | cons x xs ih =>
+    simp only [maxLen]
+    rcases mem_cons.1 hh with rfl | hh
+    · exact Nat.le_max_left _ _
+    · exact Nat.le_trans (ih hh) (Nat.le_max_right _ _)
+
+/-- a vector that ends where the other one continues is padded with `one` there -/
+theorem padTo_short (one : Int) (n : Nat) (pre : List Int) (hn : pre.length < n) :
+    padTo one n pre = pre ++ one :: replicate (n - pre.length - 1) one := by
+  unfold padTo
+  obtain ⟨m, hm⟩ : ∃ m, n - pre.length = m + 1 := ⟨n - pre.length - 1, by omega⟩
+  rw [hm, replicate_succ]
+  congr
 
 end NemoVerif.Conflict
